@@ -1500,6 +1500,116 @@ def hardening_stream(ctx, lad):
                 if ok:
                     chk(case, 'T: gate with %s weights = gate with complex weights' % tn, d, tol)
 
+    # ---- (F) explicit zero / negative zero / tiny / full-period angles through every constructor keyword
+    G4 = np.zeros((16, 16), dtype=complex)
+    G4[3, 12] = G4[12, 3] = -1          # DoubleExcitation = exp(-i pi t G4)  (double_excitation_spectral)
+    q4 = cirq.LineQubit.range(4)
+    kw_values = {
+        'exponent': [(0, 0.0), (0.0, 0.0), (-0.0, 0.0), (np.float64(0.0), 0.0), (np.int64(0), 0.0), (1e-12, 1e-12), (2, 2.0),
+                     (-2.0, -2.0), (1, 1.0), (0.5, 0.5), (-0.375, -0.375)],
+        'rads': [(0, 0.0), (0.0, 0.0), (-0.0, 0.0), (1e-12, 1e-12 / math.pi), (2 * math.pi, 2.0), (math.pi, 1.0),
+                 (-math.pi / 2, -0.5), (0.3, 0.3 / math.pi)],
+        'degs': [(0, 0.0), (0.0, 0.0), (-0.0, 0.0), (1e-10, 1e-10 / 180), (360, 2.0), (180, 1.0), (-90, -0.5), (30.0, 1 / 6)],
+        'duration': [(0, 0.0), (0.0, 0.0), (-0.0, 0.0), (np.float64(0.0), 0.0), (1e-12, 2e-12 / math.pi), (math.pi, 2.0),
+                     (math.pi / 2, 1.0), (-math.pi / 4, -0.5), (0.3, 0.6 / math.pi)],
+    }
+    for kwname, vals in kw_values.items():
+        for val, t_expected in vals:
+            case = {'family': 'F', 'gate': 'DoubleExcitationGate', 'keyword': kwname, 'value': repr(val)}
+            st.case(case)
+            st.count('F:DoubleExcitationGate(%s=)' % kwname)
+            ok, g = safe(st, 'DoubleExcitationGate(%s=%r)' % (kwname, val), case,
+                         lambda: of.DoubleExcitationGate(**{kwname: val}))
+            if not ok:
+                continue
+            chk(case, 'F: exponent of DoubleExcitationGate(%s=value) is the documented conversion' % kwname,
+                abs(float(g.exponent) - t_expected), 1e-12, {'exponent': float(g.exponent), 'expected': t_expected})
+            ok, U = safe(st, 'unitary(DoubleExcitationGate)', case, lambda: cirq.unitary(g))
+            if not ok:
+                continue
+            want = la.expm(-1j * math.pi * t_expected * G4)
+            chk(case, 'F: DoubleExcitationGate(%s=value) = exp(-i pi t G)' % kwname, maxdiff(U, want), 1e-11)
+            sv = rng_state(rng, 16)
+            out = cirq.Simulator(dtype=np.complex128).simulate(cirq.Circuit(g(*q4)), initial_state=sv,
+                                                               qubit_order=q4).final_state_vector
+            chk(case, 'F: simulated state of DoubleExcitationGate(%s=value) = exp(-i pi t G) v' % kwname,
+                maxdiff(out, want @ sv), 1e-11)
+            ok, D = safe(st, 'DoubleExcitationGate decomposition', case,
+                         lambda: circuit_unitary(cirq, cirq.decompose_once(g(*q4)), q4))
+            if ok:
+                chk(case, 'F: decomposition of DoubleExcitationGate(%s=value) = gate up to a phase' % kwname,
+                    phase_diff(D, want), 1e-9)
+    # default (no keyword) is one half turn; two keywords at once are refused
+    case = {'family': 'F', 'gate': 'DoubleExcitationGate', 'keyword': None}
+    st.case(case)
+    ok, g = safe(st, 'DoubleExcitationGate()', case, lambda: of.DoubleExcitationGate())
+    if ok:
+        chk(case, 'F: DoubleExcitationGate() has exponent 1', abs(float(g.exponent) - 1.0), 0.0)
+    for kws in ({'duration': 0, 'exponent': 0}, {'rads': 0.0, 'degs': 0.0}, {'exponent': 1.0, 'duration': 0.5}):
+        try:
+            of.DoubleExcitationGate(**kws)
+            st.violate('F: DoubleExcitationGate accepts two angle keywords at once', dict(case, keywords=str(kws)), {})
+        except ValueError:
+            pass
+        except Exception as e:  # noqa: BLE001
+            st.violate('F: DoubleExcitationGate with two angle keywords raised %s' % type(e).__name__,
+                       dict(case, keywords=str(kws)), {})
+    # the same boundary values for the positional-angle gates (documented matrices) and the exponents of the other gates
+    boundary = [0, 0.0, -0.0, np.float64(-0.0), 1e-12, -1e-12, 2 * math.pi, -2 * math.pi, 4 * math.pi, math.pi]
+    XXb, YYb = kron(PAULI['X'], PAULI['X']), kron(PAULI['Y'], PAULI['Y'])
+    YXb, XYb, ZZb = kron(PAULI['Y'], PAULI['X']), kron(PAULI['X'], PAULI['Y']), kron(PAULI['Z'], PAULI['Z'])
+    for a in boundary:
+        af = float(a)
+        docs_b = [('Rxxyy', of.Rxxyy, la.expm(-1j * af * (XXb + YYb) / 2)), ('Ryxxy', of.Ryxxy, la.expm(-1j * af * (YXb - XYb) / 2)),
+                  ('Rzz', of.Rzz, la.expm(-1j * af * ZZb)), ('rot11', of.rot11, np.diag([1, 1, 1, np.exp(1j * af)])),
+                  ('rot111', of.rot111, np.diag([1] * 7 + [np.exp(1j * af)])),
+                  ('CRxxyy', of.CRxxyy, la.block_diag(np.eye(4), la.expm(-1j * af * (XXb + YYb) / 2))),
+                  ('CRyxxy', of.CRyxxy, la.block_diag(np.eye(4), la.expm(-1j * af * (YXb - XYb) / 2)))]
+        for name, mk, doc in docs_b:
+            case = {'family': 'F', 'gate': name, 'angle': repr(a)}
+            st.case(case)
+            st.count('F:boundary-angle')
+            ok, U = safe(st, 'F: %s(%r)' % (name, a), case, lambda: cirq.unitary(mk(a)))
+            if ok:
+                chk(case, 'F: documented matrix at a boundary angle (%s)' % name, maxdiff(U, doc), 1e-11)
+    n0, n1 = lad.get(2, 0, 1) @ lad.get(2, 0, 0), lad.get(2, 1, 1) @ lad.get(2, 1, 0)
+    hop = lad.get(2, 0, 1) @ lad.get(2, 1, 0) + lad.get(2, 1, 1) @ lad.get(2, 0, 0)
+    P1f = 0.5 * (n0 + n1 - hop)
+    for t in [0, 0.0, -0.0, 1e-12, 2, -2.0, 4, 1, np.float64(0.0), np.int64(0)]:
+        case = {'family': 'F', 'gate': 'FSWAP**t', 'exponent': repr(t)}
+        st.case(case)
+        st.count('F:boundary-exponent')
+        ok, U = safe(st, 'F: FSWAP**%r' % (t,), case, lambda: cirq.unitary(of.FSWAP ** t))
+        if ok:
+            chk(case, 'F: FSWAP**t = exp(i pi t P1) at a boundary exponent', maxdiff(U, la.expm(1j * math.pi * float(t) * P1f)), 1e-11)
+        ok, U = safe(st, 'F: FSwapPowGate(exponent=%r)' % (t,), case, lambda: cirq.unitary(of.FSwapPowGate(exponent=t)))
+        if ok:
+            chk(case, 'F: FSwapPowGate(exponent=t) = exp(i pi t P1) at a boundary exponent',
+                maxdiff(U, la.expm(1j * math.pi * float(t) * P1f)), 1e-11)
+        for cls, nw, nq in classes:
+            ws = tuple(rand_w('generic') for _ in range(nw))
+            if cls is of.QuadraticFermionicSimulationGate:
+                ws = (ws[0], ws[1].real or 0.5)
+            c2 = dict(case, gate=cls.__name__, weights=[str(w) for w in ws])
+            st.case(c2)
+            ok, g = safe(st, 'F: %s(exponent=%r)' % (cls.__name__, t), c2, lambda: cls(ws, exponent=t))
+            if not ok:
+                continue
+            ok, U = safe(st, 'F: unitary(%s)' % cls.__name__, c2, lambda: cirq.unitary(g))
+            if not ok:
+                continue
+            want = la.expm(-1j * float(t) * lad.op(nq, g.fermion_generator.terms))
+            chk(c2, 'F: fermionic simulation gate = exp(-i t JW(fermion_generator)) at a boundary exponent', maxdiff(U, want), 1e-10)
+            qs_ = cirq.LineQubit.range(nq)
+            sv = rng_state(rng, 2 ** nq)
+            out = cirq.Simulator(dtype=np.complex128).simulate(cirq.Circuit(g(*qs_)), initial_state=sv,
+                                                               qubit_order=qs_).final_state_vector
+            chk(c2, 'F: simulated state = unitary at a boundary exponent', maxdiff(out, want @ sv), 1e-10)
+            if cls is of.QuadraticFermionicSimulationGate:
+                ok, D = safe(st, 'F: Quadratic decomposition', c2,
+                             lambda: circuit_unitary(cirq, cirq.decompose_once(g(*qs_)), qs_))
+                if ok:
+                    chk(c2, 'F: Quadratic decomposition = gate at a boundary exponent', maxdiff(D, want), 1e-10)
     # ---- (B) small angles and weights (documented matrices / generators as oracle)
     XX, YY = kron(PAULI['X'], PAULI['X']), kron(PAULI['Y'], PAULI['Y'])
     YX, XY, ZZ = kron(PAULI['Y'], PAULI['X']), kron(PAULI['X'], PAULI['Y']), kron(PAULI['Z'], PAULI['Z'])
